@@ -38,9 +38,17 @@ Streams (S3, model vs implementation)
                      message.py really calls; Msg/General.lean: `constructG`, `parseMessageG`, `forwardG`; driver ops
                      `buildg` / `parseg` / `forwardg`) against the real code - on every case of build / construct-malformed,
                      of parse-own / parse-foreign / parse-foreign-containers / parse-wrongtype, and of the forwarding step
-                     (own bytes, reference bytes incl. the ones with container-typed unknown fields).  No fragment: a case the
-                     specialised model calls "outside" is compared like any other.  `forwardg` certifies each case inside the
-                     hypotheses of `forward_parse` (`cert=`) and re-checks the theorem's conclusion on it (`thm=`)
+                     (own bytes, reference bytes incl. the ones with container-typed unknown fields).  No fragment for the
+                     header CODEC: a variant of any type is decoded / encoded, a case the specialised model calls "outside" is
+                     compared like any other (`parseg`: no skip at all).  One limit remains in the FORWARDING call, shared with
+                     the specialised model (`wrapAttr`): `ObjectPath(x)` / `Signature(x)` / `UInt32(x)` are modelled for str / int
+                     values; a model answer `Exception` is skipped ONLY when the real parsed object holds a non-str path /
+                     signature or a non-int reply_serial / unix_fds (`forward_outside_model`), else it is a disagreement.
+                     The forwarding step is bus.py's own `BusProtocol.rawDBusMessageReceived` with `bus` / `transport` stubbed
+                     (`bus_forwarder`; stat `via=bus.py`), so a change of that seam is seen here.  A failing real parse is
+                     tolerated only when it fails inside the BODY decode (stage `parse`); a failure of the forwarding call
+                     itself is always compared.  `forwardg` certifies each case inside the hypotheses of `forward_parse`
+                     (`cert=`) and re-checks the theorem's conclusion on it (`thm=`)
   history-omitted-fds / history-marshal-again / history-parse-again   (state-leak round 2026-09-30, STATE_AUDIT G2 / G11)
                      HISTORIES: several uses inside ONE scenario, nothing rebuilt, the serial counter never touched by the
                      harness, every step judged.  omitted-fds: constructions of all four classes WITHOUT the `oobFDs`
@@ -93,6 +101,8 @@ THEOREMS = ['marshal_wellformed', 'serial_fresh', 'parse_marshal', 'parse_foreig
             'parse_marshal_general', 'parse_foreign_general', 'parse_foreign_containers',
             'remarshal_parse', 'forward_parse', 'remarshal_general_eq', 'forward_drops_field_outside_table',
             'headerCode_outside_fragment', 'general_result_shape', 'forward_foreign',
+            'headerCode_outside_fragment_anchored', 'forward_parse_general', 'parse_general_calls', 'sender_in_every_table',
+            'forward_succeeds',
             'marshal_again_same', 'marshal_again_new', 'shared_descriptor_list_leaks']
 TRUSTED_BASE = [
     'message body bytes: the model takes the bytes marshal.marshal produced as an input (opaque body codec; '
@@ -132,29 +142,114 @@ DEFAULT_MAX = 2 ** 27
 
 # ---------------------------------------------------------------------------------- reporting (exemplar choice)
 # vlib keeps, per key, the SMALLEST input as the exemplar that goes into the replay file.  A leak between uses is often hit
-# by a single-case stream too - by luck, because earlier cases of the same process left something behind - and that single
-# case, replayed alone in a fresh process, reports "property holds" (STATE_AUDIT M6).  A history carries the earlier uses
-# with it and always replays.  So violations are collected here and handed to ctx at the end of run() / replay(): per key,
-# the smallest HISTORY exemplar if a history hit the key (for a stateless defect that is a one-step history), else the
-# smallest single case, as before.
+# by a single case too - by luck, because earlier cases of the same process left something behind - and that case, replayed
+# alone in a fresh process, reports "property holds" (STATE_AUDIT M6).  The same is true of the first steps of a history that
+# runs late in the process.  So violations are collected here and handed to ctx at the end of run() / replay(); per key the
+# exemplar is the smallest candidate that REPRODUCES the key in a fresh interpreter (harness.c03.replay on it, no model):
+# prefixes of histories up to the failing step first, then whole histories (a history repeats its uses, so the whole of it
+# shows in a clean process what its first step showed in a polluted one), then the smallest single case.  When nothing
+# reproduces, the smallest candidate is stored and the text says so.  (Subprocesses only when there IS a violation.)
 PENDING = {}
+CURRENT_HISTORY = [None]
+KEEP = 3
+
+
+def _size(inp):
+    return len(json.dumps(inp, sort_keys=True, default=repr))
+
+
+def _keep(lst, rec):
+    if any(r['inp'] is rec['inp'] for r in lst):
+        return
+    lst.append(rec)
+    lst.sort(key=lambda r: r['size'])
+    del lst[KEEP:]
 
 
 def violation(ctx, key, what, inp, observed=None, expected=None):
-    rec = {'what': what, 'inp': inp, 'observed': observed, 'expected': expected, 'size': len(json.dumps(inp, sort_keys=True, default=repr))}
-    slot = PENDING.setdefault(key, {'count': 0, 'history': None, 'single': None})
+    rec = {'what': what, 'inp': inp, 'observed': observed, 'expected': expected, 'size': _size(inp)}
+    slot = PENDING.setdefault(key, {'count': 0, 'first': [], 'prefix': [], 'full': [], 'single': []})
     slot['count'] += 1
-    which = 'history' if isinstance(inp, dict) and inp.get('kind') == 'history' else 'single'
-    if slot[which] is None or rec['size'] < slot[which]['size']:
-        slot[which] = rec
+    if isinstance(inp, dict) and inp.get('kind') == 'history':
+        if len(slot['first']) < 2:          # the earliest hits: the ladders run in a process that is still clean
+            slot['first'].append(rec)
+        _keep(slot['prefix'], rec)
+        full = CURRENT_HISTORY[0]
+        if full is not None and len(full['steps']) > len(inp['steps']):
+            _keep(slot['full'], dict(rec, inp=full, size=_size(full)))
+    else:
+        _keep(slot['single'], rec)
+
+
+_REPRO = {}
+
+
+def reproduced_keys(ctx, inp):
+    """The violation keys harness.c03.replay reports for `inp` in a fresh interpreter on the same tree (a set); None: could
+    not tell (verification switched off, subprocess failed)."""
+    import os
+    import subprocess
+    import sys
+    if os.environ.get('C03_NO_VERIFY'):
+        return None
+    if id(inp) in _REPRO:
+        return _REPRO[id(inp)][1]
+    code = ('import sys, json\n'
+            'sys.path.insert(0, %r)\n'
+            'from vlib import ctx as C\n'
+            'C.use_repo(%r)\n'
+            'import harness.c03 as H\n'
+            'c = C.Ctx("C03", "quick", 0, %r)\n'
+            'c.model_available = False\n'
+            'H.replay(c, {"input": json.load(sys.stdin)})\n'
+            'print("KEYS " + json.dumps(sorted(v["key"] for v in c.violations)))\n'
+            % (os.path.dirname(os.path.dirname(os.path.abspath(__file__))), ctx.repo, ctx.repo))
+    got = None
+    try:
+        p = subprocess.run([sys.executable, '-c', code], input=json.dumps(inp, default=repr).encode(), stdout=subprocess.PIPE,
+                           stderr=subprocess.PIPE, timeout=120, env=dict(os.environ, C03_NO_VERIFY='1'))
+        for ln in p.stdout.decode('utf-8', 'replace').splitlines():
+            if ln.startswith('KEYS '):
+                got = set(json.loads(ln[5:]))
+    except Exception:
+        got = None
+    _REPRO[id(inp)] = (inp, got)          # (the input is kept alive so that its id stays its own)
+    return got
 
 
 def flush_violations(ctx):
+    chosen = {}
+    for key, slot in PENDING.items():
+        cands = []
+        for rec in slot['first'] + slot['prefix'] + slot['full'] + slot['single'][:1]:
+            if not any(c['inp'] is rec['inp'] for c in cands):
+                cands.append(rec)
+        slot['cands'] = cands
+        for rec in cands:
+            got = reproduced_keys(ctx, rec['inp'])
+            if got is None or key in got:     # reproduced, or verification is switched off / not possible
+                chosen[key] = (rec, got is not None)
+                break
     for key, slot in list(PENDING.items()):
-        rec = slot['history'] or slot['single']
+        if key not in chosen:
+            # an input that was verified for ANOTHER key and shows this one too (one leak, several symptoms)
+            pool = [(_size(inp), inp) for inp, got in _REPRO.values() if got and key in got]
+            if pool:
+                inp = min(pool, key=lambda t: t[0])[1]
+                chosen[key] = (dict(slot['cands'][0], inp=inp), True)
+        if key in chosen:
+            rec, verified = chosen[key]
+            if verified:
+                ctx.stat('exemplar-reproduced-in-fresh-process')
+        else:
+            rec = slot['cands'][0]
+            rec = dict(rec, what=rec['what'] + ' [seen after earlier uses in the same process; none of the %d stored candidate '
+                       'inputs shows it alone in a fresh process]' % len(slot['cands']))
+            ctx.stat('exemplar-not-reproduced-alone')
         for _ in range(slot['count']):
             ctx.violation(key, rec['what'], inp=rec['inp'], observed=rec['observed'], expected=rec['expected'])
     PENDING.clear()
+    _REPRO.clear()
 
 
 # ---------------------------------------------------------------------------------- canonical forms
@@ -895,10 +990,10 @@ def flush_general_parse(ctx, message):
         mv = view_from_model(out[i])
         if mv == v:
             continue
-        if mv.get('err') == 'Exception':
-            ctx.stat('general-parse:model-Exception')       # PyErr.other: a shape the model does not cover at all
-            continue
+        # no skip for a model answer `Exception` (PyErr.other): `parseMessageG` cannot produce it from the header stage
+        # (`general_result_shape`: the `other` branch of `headerOfPy` is dead; `parseAfterHeader` has none) - review 3, 3.2(c)
         if tolerant and mv.get('ok') and not v['ok'] and body_stage_error(message, raw, fds):
+            ctx.stat('general-parse:impl-fails-in-body-decode')
             continue
         ctx.disagree('general-parse', inp if isinstance(inp, dict) else {'kind': 'raw', 'raw': hexs(raw), 'fds': fds},
                      mv, v, detail='parseMessageG (header through the general code model Code.unmarshal) vs the real parseMessage')
@@ -1702,37 +1797,142 @@ def run_remarshal(ctx, message, items):
                 ctx.disagree('remarshal-parsed', rin, mo, impl)
 
 
+class _StubTransport(object):
+    def loseConnection(self):
+        pass
+
+    def write(self, data):
+        pass
+
+
+class _StubBus(object):
+    """Stands where `BusProtocol.bus` stands: records what `rawDBusMessageReceived` hands over."""
+    def __init__(self):
+        self.got = []
+
+    def clientConnected(self, proto):
+        pass
+
+    def clientDisconnected(self, proto):
+        pass
+
+    def messageReceived(self, proto, msg):
+        self.got.append(msg)
+
+
+_BUS_TIE = {}
+
+
+def bus_forwarder(ctx, message):
+    """(review 3, 3.3) The forwarding statements of bus.py THEMSELVES: `BusProtocol.rawDBusMessageReceived(raw)` of the tree under
+    test, with `bus` / `transport` stubbed, a unique name already assigned and Hello already called; returns the message object
+    handed to `bus.messageReceived` (what the bus routes on).  A change of that seam in bus.py (endian not copied, `rawBody`
+    not passed, `sender` set after the call, a new serial) then shows in `general-forward`.  Located once per run by driving a
+    minimal method call through it; when that does not work (BusProtocol reshaped) the three statements are re-enacted by the
+    harness as before and a note is left."""
+    key = id(message)
+    if key in _BUS_TIE:
+        return _BUS_TIE[key]
+    fwd = None
+    try:
+        from txdbus import bus as busmod
+
+        def fwd_(raw, fds, snd):
+            bp = object.__new__(busmod.BusProtocol)
+            stub = _StubBus()
+            bp.bus, bp.transport = stub, _StubTransport()
+            bp.uniqueName, bp._called_hello, bp.isConnected = snd, True, True
+            bp.busNames, bp.matchRules, bp._receivedFDs = {}, set(), fds
+            bp.rawDBusMessageReceived(raw)
+            if len(stub.got) != 1:
+                raise RuntimeError('bus.messageReceived called %d times' % len(stub.got))
+            return stub.got[0]
+        saved = get_next(message)
+        try:
+            probe = message.MethodCallMessage('/a', 'm', destination=':1.2')
+            got = fwd_(probe.rawMessage, [], ':1.77')
+        finally:
+            set_next(message, saved)
+        if getattr(got, 'sender', None) == ':1.77' and got.rawMessage != probe.rawMessage:
+            fwd = fwd_
+    except Exception as e:                       # the harness's own reach: never a verdict
+        ctx.note('BusProtocol.rawDBusMessageReceived could not be driven with a stubbed bus (%s: %s): the forwarding statements '
+                 'of bus.py are re-enacted by the harness' % (type(e).__name__, e))
+    _BUS_TIE[key] = fwd
+    return fwd
+
+
+def forward_outside_model(p):
+    """(review 3, 3.2) The known attributes of the REAL parsed object whose value `_marshal`'s wrapper typing is not modelled
+    for (`wrapAttr`, Msg/Message.lean: `ObjectPath(x)` / `Signature(x)` of a non-str, `UInt32(x)` of a non-int answer
+    `PyErr.other`; the code computes `str(x)` / `int(x)`): only such a case may be skipped when the model says `Exception`.
+    Restricted to the attributes the class's header table walks, when that table is readable."""
+    rows = getattr(type(p), '_headerAttrs', None)
+    try:
+        walked = {r[0] for r in rows} if rows else None
+    except Exception:
+        walked = None
+    bad = []
+    for a in ('path', 'signature'):
+        v = getattr(p, a, None)
+        if v is not None and not isinstance(v, str) and (walked is None or a in walked):
+            bad.append(a)
+    for a in ('reply_serial', 'unix_fds'):
+        v = getattr(p, a, None)
+        if v is not None and not isinstance(v, int) and (walked is None or a in walked):
+            bad.append(a)
+    return bad
+
+
 def run_general_forward(ctx, message, items):
-    """Stream general-forward: the bus's forwarding step through `parseMessageG` / `forwardG` (no fragment) against the real
-    code; every case certified inside the hypotheses of `forward_parse` (or counted as outside), conclusion re-checked."""
+    """Stream general-forward: the bus's forwarding step through `parseMessageG` / `forwardG` against the real code - bus.py's own
+    statements when `bus_forwarder` can drive them; every case certified inside the hypotheses of `forward_parse` (or counted as
+    outside), conclusion re-checked.  `forwardG` has no fragment for the VALUES of header fields; the wrapper typing of
+    path / signature / reply_serial / unix_fds is modelled for str / int values only (`forward_outside_model`)."""
     if not forwarding_api(message) or not items:
         ctx.case('general-forward', sample=None, n=1)
         return
+    busf = bus_forwarder(ctx, message)
     senders = [':1.%d' % ctx.rng.randrange(1, 500) for _ in items]
     out = ctx.model(['forwardg %s %s' % (parse_line(raw, fds)[len('parse '):], opt_s(snd))
                      for (inp, raw, fds), snd in zip(items, senders)])
     for i, ((inp, raw, fds), snd) in enumerate(zip(items, senders)):
+        stage, p0 = 'parse', None
         try:
-            p = message.parseMessage(raw, fds)
-            p.sender = snd
-            p.endian = raw[0]
-            forward(message, p, P.raw_parts(p, raw)[2])
+            p0 = message.parseMessage(raw, fds)             # the call rawDBusMessageReceived makes first
+            stage = 'forward'
+            if busf is not None:
+                p = busf(raw, fds, snd)
+            else:
+                p = p0
+                p.sender = snd
+                p.endian = raw[0]
+                forward(message, p, P.raw_parts(p, raw)[2])
             impl = {'ok': True, 'raw': hexs(p.rawMessage)}
         except Exception as e:
             impl = {'ok': False, 'err': exc_name(e)}
         ctx.impl_trace()
         ctx.case('general-forward', sample=None)
+        ctx.stat('general-forward:via=' + ('bus.py' if busf is not None else 're-enacted'))
         if out is None:
             continue
         rin = dict(inp, kind2='remarshal', sender=snd) if isinstance(inp, dict) else {'raw': hexs(raw), 'fds': fds, 'sender': snd}
         d = kv(out[i])
         mo = {'ok': True, 'raw': d.get('raw')} if d['_head'] == 'ok' else {'ok': False, 'err': d.get('kind')}
-        if mo.get('err') == 'Exception':
-            ctx.stat('general-forward:model-Exception')
-            continue
-        if not impl['ok'] and mo != impl and body_stage_error(message, raw, fds):
-            # parseMessage failed while DECODING THE BODY (the codec's business: C01/C05); the driver's body codec is opaque
+        if stage == 'parse' and mo != impl and body_stage_error(message, raw, fds):
+            # the real parseMessage FAILED, and with the body decoder stubbed it succeeds: it failed while decoding the body
+            # (the codec's business: C01/C05; the driver's body codec is opaque).  Only the PARSE stage is tolerated this way:
+            # a failure of the forwarding call itself is always compared
             ctx.stat('general-forward:impl-fails-in-body-decode')
+            continue
+        if mo.get('err') == 'Exception' and mo != impl:
+            bad = forward_outside_model(p0) if stage == 'forward' else []
+            if bad:
+                ctx.stat('general-forward:outside-model:%s:impl=%s' % ('+'.join(bad), 'ok' if impl['ok'] else impl['err']))
+                continue
+            ctx.disagree('general-forward', rin, mo, impl,
+                         detail='the model answers PyErr.other although no walked attribute of the real object holds a value '
+                                'outside the modelled wrapper typing')
             continue
         if mo != impl:
             ctx.disagree('general-forward', rin, mo, impl,
@@ -2140,6 +2340,7 @@ def run_history(ctx, marshal, message, hist):
     [(step number, driver line or None, implementation observation, kind)]."""
     stream = HIST_STREAM[hist['family']]
     steps = hist['steps']
+    CURRENT_HISTORY[0] = hist
     start = get_next(message)                 # read, never written
     objs, builds, alive = [], [], []          # per build step: message object (or None), its case, still usable
     returned = {}                             # step number -> (parsed object, x, serial, nfds, fds values, src kind, fds list)
@@ -2280,6 +2481,7 @@ def run_histories(ctx, marshal, message, hists):
         for i, line, obs, kind in trace:
             lines.append(line)
             where.append((hist, i, obs, kind))
+    CURRENT_HISTORY[0] = None
     out = ctx.model(lines)
     if out is None:
         return
@@ -2310,10 +2512,11 @@ def run_histories(ctx, marshal, message, hists):
             gen_bit(ctx, ln, inp)
 
 
-def gen_histories(ctx, marshal, n):
+def gen_histories(ctx, marshal, lo, hi):
+    """Histories number lo .. hi-1 of each family (0..3: the deterministic ladders, one per class)."""
     rng = ctx.rng
     hs = []
-    for k in range(n):
+    for k in range(lo, hi):
         hs.append(g_hist_omitted(rng, marshal, k))
         hs.append(g_hist_again(rng, marshal, k))
         hs.append(g_hist_parse(rng, marshal, k))
@@ -2400,6 +2603,8 @@ def run(ctx):
         for name, data in ctx.corpus():
             replay_case(ctx, marshal, message, data['input'] if 'input' in data else data)
             ctx.stat('corpus')
+        # the ladders of the state-leak round run before the bulk streams: what they show, they show from a clean process
+        run_histories(ctx, marshal, message, gen_histories(ctx, marshal, 0, 4))
         rng = ctx.rng
         n = ctx.scale(quick=3000, thorough=100000)
         cases = large_cases(marshal) + long_signature_cases() + [g_case(rng, marshal) for _ in range(n)]
@@ -2425,7 +2630,7 @@ def run(ctx):
         run_wrongtype(ctx, marshal, message, ctx.scale(quick=1200, thorough=40000))
         for _ in range(ctx.scale(quick=6, thorough=40)):
             run_serial_sequence(ctx, marshal, message, 150)
-        run_histories(ctx, marshal, message, gen_histories(ctx, marshal, ctx.scale(quick=60, thorough=1500)))
+        run_histories(ctx, marshal, message, gen_histories(ctx, marshal, 4, ctx.scale(quick=60, thorough=1500)))
         if ctx.tier == 'thorough' and not ctx.widen:
             run_real_limit(ctx, marshal, message)
         flush_general_parse(ctx, message)
